@@ -3,6 +3,7 @@
 package main
 
 import (
+	proxyhttp "github.com/oauth2-proxy/oauth2-proxy/v7/pkg/http"
 	"github.com/ghodss/yaml"
 	"context"
 	"crypto/sha256"
@@ -96,6 +97,17 @@ type vfWorld struct {
 
 var vfCurNet atomic.Pointer[vfNet]
 
+const vfFrontAddr = "front.sim:4180"
+
+// vfGlobalListen is what the pkg/http listener seam (build tag verif) calls instead of net.Listen.
+func vfGlobalListen(network, addr string) (net.Listener, error) {
+	n := vfCurNet.Load()
+	if n == nil {
+		return nil, fmt.Errorf("sim: no network")
+	}
+	return n.Listen(addr), nil
+}
+
 func vfGlobalDial(ctx context.Context, network, addr string) (net.Conn, error) {
 	n := vfCurNet.Load()
 	if n == nil {
@@ -114,6 +126,7 @@ func vfNewWorld(t *testing.T, prop, tier string, tape *vfTape) *vfWorld {
 	// one stable dial function for the life of the process: a transport the code under test cloned in an earlier world
 	// (a package-level pool, say) keeps it and still reaches the network of the CURRENT world
 	vfCurNet.Store(w.net)
+	proxyhttp.VerifListen = vfGlobalListen
 	tr.DialContext = vfGlobalDial
 	tr.DisableKeepAlives = true
 	tr.Proxy = nil
@@ -290,6 +303,7 @@ type vfCfg struct {
 	EmailDomains   []string
 	Extra          []string // any further raw flags
 	Mut            func(o *options.Options)
+	Front          bool // the application's own HTTP server (pkg/http) listens on the simulated network (front.sim:4180)
 	Alpha          bool // load the same configuration through the alpha (YAML) channel: flags -> converted alpha file -> merge
 	SkipNonce      bool
 	PKCE           string
@@ -320,7 +334,11 @@ func (c *vfCfg) clone() *vfCfg {
 }
 
 func (c *vfCfg) Args() []string {
-	a := []string{"--http-address=-", "--client-id=" + vfClientID, "--client-secret=" + vfSecret,
+	httpAddr := "-"
+	if c.Front {
+		httpAddr = vfFrontAddr
+	}
+	a := []string{"--http-address=" + httpAddr, "--client-id=" + vfClientID, "--client-secret=" + vfSecret,
 		"--cookie-name=" + c.CookieName, "--cookie-secret=" + c.CookieSecret,
 		"--cookie-expire=" + c.CookieExpire.String(), "--cookie-refresh=" + c.CookieRefresh.String(),
 		fmt.Sprintf("--cookie-secure=%v", c.CookieSecure), fmt.Sprintf("--cookie-httponly=%v", c.CookieHTTPOnly),
@@ -440,6 +458,19 @@ func (w *vfWorld) NewReplica(name string, cfg *vfCfg) (*vfReplica, error) {
 		}
 		rc.AddHook(&vfRedisHook{r: w.redis, rep: r})
 		r.rc = rc
+	}
+	if cfg.Front {
+		// the product's own server object (pkg/http: listener, http.Server with its timeouts, graceful shutdown) runs on the
+		// simulated network; OAuthProxy.Start would also wait for a signal, so the server group is started directly
+		ctx, cancel := context.WithCancel(context.Background())
+		done := make(chan struct{})
+		go func() {
+			defer close(done)
+			if err := p.server.Start(ctx); err != nil {
+				w.logf("world", "front server of %s ended: %v", name, err)
+			}
+		}()
+		w.cleanup = append(w.cleanup, func() { cancel(); <-done })
 	}
 	w.reps = append(w.reps, r)
 	w.logf("world", "replica %s up store=%s provider=%s", name, cfg.Store, cfg.Provider)
